@@ -364,10 +364,18 @@ func (obj *LogisticRegression) GetEstimate() (VectorPdf, error) {
 /* -------------------------------------------------------------------------- */
 
 func (obj *LogisticRegression) estimateStepSize() {
-  max_squared_sum := 0.0
-  max_weight      := 1.0
+  // largest weighted squared norm of a data vector (including the
+  // constant first element)
+  max_weighted_sum := 0.0
+  weight := func(i int) float64 {
+    if i < len(obj.c) && obj.c[i] {
+      return obj.ClassWeights[1]
+    } else {
+      return obj.ClassWeights[0]
+    }
+  }
   if obj.sparse {
-    for _, x := range obj.x_sparse {
+    for i, x := range obj.x_sparse {
       r  := 0.0
       it := x.ConstIterator()
       // skip first element
@@ -377,8 +385,8 @@ func (obj *LogisticRegression) estimateStepSize() {
       for ; it.Ok(); it.Next() {
         r += it.GetConst().GetFloat64()*it.GetConst().GetFloat64()
       }
-      if r > max_squared_sum {
-        max_squared_sum = r
+      if t := weight(i)*(r + 1.0); t > max_weighted_sum {
+        max_weighted_sum = t
       }
     }
   } else {
@@ -392,18 +400,15 @@ func (obj *LogisticRegression) estimateStepSize() {
       for ; it.Ok(); it.Next() {
         r += it.GetConst().GetFloat64()*it.GetConst().GetFloat64()
       }
-      if r > max_squared_sum {
-        max_squared_sum = r
-        if obj.c[i] {
-          max_weight = obj.ClassWeights[1]
-        } else {
-          max_weight = obj.ClassWeights[0]
-        }
+      if t := weight(i)*(r + 1.0); t > max_weighted_sum {
+        max_weighted_sum = t
       }
     }
   }
-  L := (0.25*(max_squared_sum + 1.0) + obj.L2Reg/float64(obj.n))
-  L *= max_weight
+  if max_weighted_sum == 0.0 {
+    max_weighted_sum = 1.0
+  }
+  L := 0.25*max_weighted_sum + obj.L2Reg/float64(obj.n)
   obj.stepSize  = 1.0/(2.0*L + math.Min(2.0*obj.L2Reg, L))
   obj.stepSize *= obj.StepSizeFactor
 }
